@@ -167,6 +167,10 @@ func registerVF() {
 	externals[vfPkg+".WatchOn"] = func(fr *frame, args []value) value { fr.i.ctx.watchOn = true; return nil }
 	externals[vfPkg+".WatchOff"] = func(fr *frame, args []value) value { fr.i.ctx.watchOn = false; return nil }
 	externals[vfPkg+".SymbolicTime"] = func(fr *frame, args []value) value { fr.i.ctx.symTime = true; return nil }
+	externals[vfPkg+".FixedSchedule"] = func(fr *frame, args []value) value {
+		fr.i.ctx.fixedSched = fr.condBool(args[0])
+		return nil
+	}
 	// Watch/lockset support
 	externals[vfPkg+".LocksHeld"] = func(fr *frame, args []value) value {
 		return len(fr.i.ctx.held)
